@@ -33,8 +33,7 @@ func NewLinearlyInterpolatedMapping(relativeAccuracy float64) (*LinearlyInterpol
 	}
 	gamma := math.Pow((1+relativeAccuracy)/(1-relativeAccuracy), math.Ln2) // > 1
 	indexOffset := 1 / math.Log2(gamma)                                    // for backward compatibility
-	m, _ := NewLinearlyInterpolatedMappingWithGamma(gamma, indexOffset)
-	return m, nil
+	return NewLinearlyInterpolatedMappingWithGamma(gamma, indexOffset)
 }
 
 func NewLinearlyInterpolatedMappingWithGamma(gamma, indexOffset float64) (*LinearlyInterpolatedMapping, error) {
